@@ -161,7 +161,7 @@ Section Locks.
         * unfold block_release. apply NN. eapply no_new_trans; [|apply no_new_mark_completed]. apply no_new_set_ns. cbn. discriminate.
         * destruct (lock_acquired (st s n)); exact C.
       + (* KEndBlock *) apply NN. eapply no_new_trans; [|apply no_new_mark_completed]. eapply no_new_trans; [|apply no_new_complete].
-        destruct (locked_blocks p s) as [|old rest]; [apply no_new_refl|]. eapply no_new_trans; [apply no_new_with_tag|apply no_new_end_block].
+        destruct (active_blocks p s) as [|old rest]; [apply no_new_refl|]. eapply no_new_trans; [apply no_new_with_tag|apply no_new_end_block].
       + (* KEndBlocks *) apply NN. eapply no_new_trans; [|apply no_new_mark_completed]. eapply no_new_trans; [|apply no_new_complete].
         eapply no_new_trans; [apply no_new_end_blocks|apply no_new_with_tag].
       + (* KWatch *) destruct (negb (interrupt_registered (st s n))); [apply NN; nn|]. destruct (negb b); [exact C|].
